@@ -183,6 +183,11 @@ func c16Work(c *mc.Ctx) {
 	for _, t := range d1 {
 		run(1, t)
 	}
+	// the empty and the nil container in every position (as the top-level value they encode to no bytes at all)
+	for _, t := range []any{map[string]any{}, map[string]any(nil), []any{}, []any(nil)} {
+		c.Dim("empty-top-level")
+		run(1, t)
+	}
 	// depth 2: containers over the reduced set (width w), plus every depth-1 container as the only element / value
 	for _, t := range c16Containers(reduced, w) {
 		run(2, t)
